@@ -13,7 +13,7 @@ import numpy as np
 
 from .. import gen, probes
 from ..common import Outcome, subseed
-from ..oracles import EPS, dense_bfgs, dense_from_compact, model_value, ref_gcp
+from ..oracles import EPS, dense_bfgs, dense_from_compact, model_tol, model_value, ref_gcp
 
 LEVEL = "exploration"
 RULE = ("synthetic: every structural pattern per variable {at lb, interior, at ub} x {g<0, g=0, g>0} x {both bounds, lower only, "
@@ -97,8 +97,7 @@ def judge_gcp(out, x, g, lb, ub, mats, B, xcp, c, where, tags):
         return True
     # 4. model value never larger than at x
     mv = model_value(B, g, x, xcp)
-    mscale = float(np.abs(g) @ np.abs(xcp - x) + 0.5 * np.abs(xcp - x) @ np.abs(B) @ np.abs(xcp - x)) + 1e-300
-    if not (mv <= 1e-12 * mscale):
+    if not (mv <= model_tol(B, g, x, xcp, rel=1e-12)):
         out.violate("model_increase", f"{where}: m(x_cp)-m(x)={mv:.3e} > 0", **tags)
         return True
     # 5. auxiliary vector
